@@ -1,4 +1,57 @@
-From ZV Require Import Base.Bytes C10.Model C10.Spec.
-Theorem C10_placeholder : validate_guid = spec_guid.
-Proof. reflexivity. Qed.
-Print Assumptions C10_placeholder.
+(* Properties/C10.v — names, object paths and GUIDs are validated exactly per the spec.
+   Only statements, each closed by [exact] of a lemma of C10/Proofs.v, and their assumptions. *)
+From ZV Require Import Base.Bytes C10.Model C10.Spec C10.Proofs.
+
+Theorem C10_interface : forall s : bytes, validate_interface s = true <->
+  exists es, s = joined dot es /\ 2 <= length es /\ Forall (fun e => elem_iface e = true) es /\ length s <= 255.
+Proof. exact interface_exact. Qed.
+Print Assumptions C10_interface.
+
+Theorem C10_error : forall s : bytes, validate_error s = true <->
+  exists es, s = joined dot es /\ 2 <= length es /\ Forall (fun e => elem_iface e = true) es /\ length s <= 255.
+Proof. exact interface_exact. Qed.
+Print Assumptions C10_error.
+
+Theorem C10_well_known : forall s : bytes, validate_well_known s = true <->
+  exists es, s = joined dot es /\ 2 <= length es /\ Forall (fun e => elem_wk e = true) es /\ length s <= 255.
+Proof. exact well_known_exact. Qed.
+Print Assumptions C10_well_known.
+
+Theorem C10_unique : forall s : bytes, validate_unique s = true <->
+  (s = B "org.freedesktop.DBus" \/
+   exists es, s = ":"%byte :: joined dot es /\ 2 <= length es /\ Forall (fun e => elem_uq e = true) es)
+  /\ length s <= 255.
+Proof. exact unique_exact. Qed.
+Print Assumptions C10_unique.
+
+Theorem C10_bus : forall s : bytes, validate_bus s = true <-> Unique s \/ WellKnown s.
+Proof. exact bus_exact. Qed.
+Print Assumptions C10_bus.
+
+Theorem C10_member : forall s : bytes, validate_member s = true <-> elem_iface s = true /\ length s <= 255.
+Proof. exact member_exact. Qed.
+Print Assumptions C10_member.
+
+Theorem C10_property : forall s : bytes, validate_property s = true <-> 1 <= length s <= 255.
+Proof. exact property_exact. Qed.
+Print Assumptions C10_property.
+
+Theorem C10_object_path : forall s : bytes, validate_object_path s = true <->
+  s = [slash] \/ exists es, s = slash :: joined slash es /\ 1 <= length es /\ Forall (fun e => elem_path e = true) es.
+Proof. exact object_path_exact. Qed.
+Print Assumptions C10_object_path.
+
+Theorem C10_guid : forall s : bytes, validate_guid s = true <->
+  length s = 32 /\ Forall (fun c => is_hexdigit c = true) s.
+Proof. exact guid_exact. Qed.
+Print Assumptions C10_guid.
+
+(* every entry point other than the derived Value conversions gives the validator's verdict *)
+Theorem C10_entry_partial : forall t e s, derived_value_conv t e = false -> construct t e s = validator t s.
+Proof. exact construct_partial. Qed.
+Print Assumptions C10_entry_partial.
+
+(* known finding: the derived TryFrom<Value> accepts a string that is not a member name *)
+Theorem C10_value_conv_refuted : exists s, construct TMember ViaValue s = true /\ ~ Member s.
+Proof. exact value_conv_refuted. Qed.
+Print Assumptions C10_value_conv_refuted.
